@@ -12,19 +12,27 @@ import (
 	"github.com/pion/webrtc/v4"
 )
 
-// p <variant> <semB> <modeB> <n> {r<pktHex> | c<pktHex>}*   → survived | inconclusive
+// p <variant> <semB> <modeB> <n> {r<pktHex> | c<pktHex> | v<lineHex> | u<lineHex> | d<lineHex>}*   → survived | inconclusive
 //
 // A connected pair over loopback (run inside a C30 worker process): A offers audio+video+data, B is the
 // connection under test and sees A's offer transformed by <variant> (0 as is with SSRCs renumbered 7001…,
 // 1 without any a=ssrc / a=ssrc-group line, 2 without them and with rid/simulcast lines in the video
-// section, 3 without the video section's a=ssrc lines). Once connected, A sends the given raw RTP (r) and
+// section, 3 without the video section's a=ssrc lines; 4..9: A offers a single video section, all a=ssrc
+// lines are removed and the a=msid line is replaced by a 2 / 1 / 0 / 3 token form, a trailing-space form, or
+// removed — the two-stage undeclared-SSRC scenario). v/u/d tokens are extra lines inserted after a=mid of the
+// video / audio / data section. Once connected, A sends the given raw RTP (r) and
 // RTCP (c) packets on its SRTP/SRTCP sessions, bypassing senders: unknown and declared SSRCs, unknown
 // payload types, mid / rid / rsid header extensions, padding-only and too-short RTX payloads. B reads every
 // track it is handed. Then both close and B's operations queue is awaited.
 
 var c30SsrcLineRe = regexp.MustCompile(`\b\d{5,10}\b`)
 
-func c30PairTransform(variant int, text string) string {
+// c30MsidForms: what variants 4..9 put in place of the offer's a=msid line ("" = line removed).
+var c30MsidForms = map[int]string{
+	4: "a=msid:streamU trackU", 5: "a=msid:streamU", 6: "a=msid:", 7: "a=msid:streamU trackU extra", 8: "a=msid:streamU ", 9: "",
+}
+
+func c30PairTransform(variant int, text string, insV, insA, insD []string) string {
 	lines := strings.Split(strings.ReplaceAll(text, "\r\n", "\n"), "\n")
 	ids := map[string]int{}
 	out := []string{}
@@ -33,8 +41,14 @@ func c30PairTransform(variant int, text string) string {
 		if strings.HasPrefix(l, "m=") {
 			section = strings.SplitN(l[2:], " ", 2)[0]
 		}
+		if variant >= 4 && strings.HasPrefix(l, "a=msid:") {
+			l = c30MsidForms[variant]
+			if l == "" {
+				continue
+			}
+		}
 		if strings.HasPrefix(l, "a=ssrc") {
-			if variant == 1 || variant == 2 || (variant == 3 && section == "video") {
+			if variant == 1 || variant == 2 || variant >= 4 || (variant == 3 && section == "video") {
 				continue
 			}
 			l = c30SsrcLineRe.ReplaceAllStringFunc(l, func(m string) string {
@@ -48,6 +62,16 @@ func c30PairTransform(variant int, text string) string {
 		out = append(out, l)
 		if variant == 2 && section == "video" && strings.HasPrefix(l, "a=mid:") {
 			out = append(out, "a=rid:q send", "a=rid:h send", "a=rid:f send", "a=simulcast:send q;h;f")
+		}
+		if strings.HasPrefix(l, "a=mid:") {
+			switch section {
+			case "video":
+				out = append(out, insV...)
+			case "audio":
+				out = append(out, insA...)
+			case "application":
+				out = append(out, insD...)
+			}
 		}
 	}
 
@@ -70,7 +94,22 @@ func c30RunPair(a []string) (out string) {
 	if e1 != nil || e2 != nil || e3 != nil || e4 != nil || len(a) != 5+n {
 		return "bad-op"
 	}
-	pa, err := c30NewPC(0, c30ModeTracks|c30ModeData)
+	insV, insA, insD := []string{}, []string{}, []string{}
+	for _, p := range a[5:] {
+		switch {
+		case len(p) > 1 && p[0] == 'v':
+			insV = append(insV, string(unhx(p[1:])))
+		case len(p) > 1 && p[0] == 'u':
+			insA = append(insA, string(unhx(p[1:])))
+		case len(p) > 1 && p[0] == 'd':
+			insD = append(insD, string(unhx(p[1:])))
+		}
+	}
+	modeA := c30ModeTracks | c30ModeData
+	if variant >= 4 {
+		modeA = c30ModeVideoTrk // exactly one media section
+	}
+	pa, err := c30NewPC(0, modeA)
 	if err != nil {
 		return "bad-op newpc"
 	}
@@ -89,6 +128,10 @@ func c30RunPair(a []string) (out string) {
 		}
 	}
 	defer closeBoth()
+	pb.OnDataChannel(func(dc *webrtc.DataChannel) {
+		dc.OnOpen(func() { _ = dc.SendText("hello") })
+		dc.OnMessage(func(webrtc.DataChannelMessage) {})
+	})
 	pb.OnTrack(func(t *webrtc.TrackRemote, r *webrtc.RTPReceiver) {
 		go func() {
 			for {
@@ -114,7 +157,7 @@ func c30RunPair(a []string) (out string) {
 	if c30WaitGather(pa, func() error { return pa.SetLocalDescription(offer) }) != nil {
 		return "inconclusive offer"
 	}
-	text := c30PairTransform(variant, pa.LocalDescription().SDP)
+	text := c30PairTransform(variant, pa.LocalDescription().SDP, insV, insA, insD)
 	if pb.SetRemoteDescription(webrtc.SessionDescription{Type: webrtc.SDPTypeOffer, SDP: text}) != nil {
 		return "survived"
 	}
@@ -145,10 +188,13 @@ func c30RunPair(a []string) (out string) {
 			continue
 		}
 		pkt := unhx(p[1:])
-		if p[0] == 'c' {
+		switch p[0] {
+		case 'c':
 			_ = webrtc.VerifWriteRawRTCP(pa, pkt)
-		} else {
+		case 'r':
 			_ = webrtc.VerifWriteRawRTP(pa, pkt)
+		default:
+			continue
 		}
 		if i%8 == 7 {
 			time.Sleep(time.Millisecond)
@@ -293,24 +339,67 @@ func c30PairRTCP(r *rand.Rand) []byte {
 	return b
 }
 
+// lines that keep a connection possible, inserted into the audio / video section of the offer the answerer sees
+var c30PairLines = []string{
+	"a=msid:", "a=msid: ", "a=msid:a", "a=msid:a b", "a=msid:a b c", "a=msid:a ", "a=msid",
+	"a=ssrc:", "a=ssrc:abc", "a=ssrc:7009", "a=ssrc:7009 msid:", "a=ssrc:7009 msid:a", "a=ssrc:7009 msid:a b", "a=ssrc:7009 msid:a b c",
+	"a=ssrc:424242 cname:x", "a=ssrc:0 msid:s t", "a=ssrc:4294967296 msid:a b",
+	"a=ssrc-group:", "a=ssrc-group:FID", "a=ssrc-group:FID 7001", "a=ssrc-group:FID 7001 7009", "a=ssrc-group:FID 424242 7009",
+	"a=ssrc-group:FID 7009 7001", "a=ssrc-group:FEC-FR 7001 7008", "a=ssrc-group:FID x y", "a=ssrc-group:FID 7001 7009 7010",
+	"a=rid:", "a=rid:q", "a=rid:q send", "a=rid:h send", "a=rid:zz recv", "a=rid",
+	"a=simulcast:", "a=simulcast:send", "a=simulcast:send q;h", "a=simulcast:send ~q;;", "a=simulcast:recv q",
+	"a=extmap:15 urn:ietf:params:rtp-hdrext:sdes:mid", "a=extmap:14 urn:ietf:params:rtp-hdrext:sdes:rtp-stream-id",
+	"a=extmap:13 urn:ietf:params:rtp-hdrext:sdes:repaired-rtp-stream-id", "a=extmap:", "a=extmap:abc uri:x",
+	"a=rtcp-fb:96 nack pli extra", "a=rtcp-fb:96", "a=fmtp:97 apt=", "a=fmtp:97 apt=999", "a=rtpmap:97 rtx/90000",
+	"a=recvonly", "a=inactive", "a=sendonly",
+}
+
+// … and into the data section: the SCTP association is started from these in the background
+var c30PairDataLines = []string{
+	"a=max-message-size:0", "a=max-message-size:1", "a=max-message-size:4294967295", "a=max-message-size:4294967296",
+	"a=max-message-size:-1", "a=max-message-size:", "a=sctp-port:0", "a=sctp-port:65536", "a=sctp-port:abc", "a=sctp-init:",
+	"a=sctp-init:!!!!", "a=sctp-init:AAAA", "a=sctp-init:AQAAAA==", "a=sctpmap:5000 webrtc-datachannel 1024", "a=bundle-only",
+}
+
 func c30GenPairs(c *Ctx) {
 	r := c.Rng
 	ids := c30ExtIDs()
 	seq := 1
-	for i := 0; i < c.N(24, 400); i++ {
-		variant := r.Intn(4)
+	emit := func(variant int) {
 		semB := r.Intn(3)
-		modeB := []int{0, 0, c30ModeTracks, c30ModeData}[r.Intn(4)]
+		modeB := []int{0, 0, c30ModeTracks, c30ModeData, c30ModeUndeclNA}[r.Intn(5)]
+		toks := []string{}
+		for k := r.Intn(3); k > 0 && r.Intn(2) == 0; k-- {
+			tag := "v"
+			if r.Intn(3) == 0 {
+				tag = "u"
+			}
+			toks = append(toks, tag+hx([]byte(c30PairLines[r.Intn(len(c30PairLines))])))
+		}
+		if variant < 4 && r.Intn(3) == 0 {
+			toks = append(toks, "d"+hx([]byte(c30PairDataLines[r.Intn(len(c30PairDataLines))])))
+		}
 		n := 30 + r.Intn(60)
-		toks := make([]string, 0, n)
 		for k := 0; k < n; k++ {
 			if r.Intn(6) == 0 {
 				toks = append(toks, "c"+hx(c30PairRTCP(r)))
 			} else {
 				seq++
-				toks = append(toks, "r"+hx(c30PairRTP(r, ids, seq)))
+				pkt := c30PairRTP(r, ids, seq)
+				if variant >= 4 && k < 6 {
+					pkt[1] = pkt[1]&0x80 | 96 // a payload type the answerer negotiated, so that the SSRC is resolved
+				}
+				toks = append(toks, "r"+hx(pkt))
 			}
 		}
-		c.Emit("p %d %d %d %d %s", variant, semB, modeB, n, strings.Join(toks, " "))
+		c.Emit("p %d %d %d %d %s", variant, semB, modeB, len(toks), strings.Join(toks, " "))
+	}
+	// the two-stage undeclared-SSRC scenario, every msid form
+	for v := 4; v <= 9; v++ {
+		emit(v)
+		emit(v)
+	}
+	for i := 0; i < c.N(24, 400); i++ {
+		emit(r.Intn(10))
 	}
 }
